@@ -36,6 +36,28 @@ def confirm(wt, mut):
     res.update(ok=bool(compiled and unit_ok and demo_failed and clean_pass), compiled=compiled, unit_81_pass=unit_ok, demo_fails_with_patch=demo_failed, demo_passes_clean=clean_pass)
     return res
 
+def confirm_py(wt, mut):
+    """Python-binding mutants: demo.py must fail with the patch and pass without (module rebuilt each time)."""
+    patch = os.path.join(mut, "patch.diff")
+    demo = os.path.join(mut, "demo.py")
+    def build_and_run():
+        rc, out = sh("cargo build --offline --release --lib 2>&1 && mkdir -p pymod && cp target/release/libsimilari.so pymod/similari.so", cwd=wt)
+        if rc != 0:
+            return None, out[-500:]
+        rc, out = sh(f"PYTHONPATH={wt}/pymod RUST_BACKTRACE=0 python3-vt {demo} 2>&1", cwd=wt)
+        return rc, out[-300:]
+    sh("git checkout -- . ; rm -rf tests", cwd=wt)
+    rc, out = sh(f"git apply {patch}", cwd=wt)
+    if rc != 0:
+        return {"ok": False, "why": "patch does not apply: " + out[-300:]}
+    rc_t, out_t = sh("cargo test --offline --no-fail-fast 2>&1", cwd=wt)
+    results = re.findall(r"test result: (\w+)\. (\d+) passed; (\d+) failed", out_t)
+    unit_ok = any(r[0] == "ok" and r[1] == "81" for r in results)
+    rc1, o1 = build_and_run()
+    sh("git checkout -- src", cwd=wt)
+    rc2, o2 = build_and_run()
+    return {"ok": bool(unit_ok and rc1 not in (0, None) and rc2 == 0), "unit_81_pass": unit_ok, "demo_exit_with_patch": rc1, "demo_exit_clean": rc2, "tail": (o1 or "")[-200:]}
+
 def detect(patch, ids):
     rc, out = sh("git status --porcelain --untracked-files=no", cwd="/repo")
     if out.strip():
@@ -60,14 +82,17 @@ def main():
     cmd = sys.argv[1]
     if cmd == "confirm":
         print(json.dumps(confirm(sys.argv[2], sys.argv[3]), indent=1))
+    elif cmd == "confirm_py":
+        print(json.dumps(confirm_py(sys.argv[2], sys.argv[3]), indent=1))
     elif cmd == "detect":
         print(json.dumps(detect(sys.argv[2], sys.argv[3:]), indent=1))
     elif cmd == "keep":
         wt, mut, pid, name = sys.argv[2:6]
         dst = f"/verif/seeded/{pid}/{name}"
         os.makedirs(dst, exist_ok=True)
-        for f in ("patch.diff", "demo.rs", "meta.json"):
-            shutil.copy(os.path.join(mut, f), os.path.join(dst, f))
+        for f in ("patch.diff", "demo.rs", "demo.py", "meta.json"):
+            if os.path.exists(os.path.join(mut, f)):
+                shutil.copy(os.path.join(mut, f), os.path.join(dst, f))
         print("kept", dst)
 
 
@@ -93,7 +118,7 @@ def detect_scratch(wt, patch, ids, tier="quick"):
             return {"error": "harness build failed: " + out[-1500:]}
         for pid in ids:
             t0 = time.time()
-            rc, out = sh(f"SV_VERIF_DIR={vdir} /tmp/mh-target/release/check {pid} --tier {tier} 2>&1", cwd=vdir, timeout=3600)
+            rc, out = sh(f"SV_VERIF_DIR={vdir} SV_REPO={wt} RUST_BACKTRACE=0 /tmp/mh-target/release/check {pid} --tier {tier} 2>&1", cwd=vdir, timeout=3600)
             viol = [l for l in out.splitlines() if l.startswith("VIOLATION")]
             sig = [l for l in out.splitlines() if l.startswith("[sv] " + pid + " /")]
             results[pid] = {"exit": rc, "violation": bool(viol), "detail": (sig[:1] or [""])[0][:500], "wall_s": round(time.time() - t0, 1)}
